@@ -110,7 +110,13 @@ pub fn child(args: &[String]) -> i32 {
     let cfgs = [Cfg::new(0), Cfg::new(NA | NE), Cfg::new(R), Cfg::new(R | NA | NE)];
     let mut done = 0;
     let mut n = lo;
+    let t0 = std::time::Instant::now();
+    let budget = std::time::Duration::from_secs(std::env::var("VERIF_CHILD_BUDGET_S").ok().and_then(|s| s.parse().ok()).unwrap_or(240));
+    let mut last_done_n = 0;
     while n <= hi {
+        if t0.elapsed() > budget {
+            break;
+        }
         let tcs = family_case(name, n);
         for cfg in &cfgs {
             match cfg.build(&tcs) {
@@ -125,16 +131,17 @@ pub fn child(args: &[String]) -> i32 {
             }
             done += 1;
         }
+        last_done_n = n;
         n += step;
     }
-    println!("{}", json!({"summary": true, "family": name, "lo": lo, "hi": hi, "step": step, "builds": done}));
+    println!("{}", json!({"summary": true, "family": name, "lo": lo, "hi": hi, "step": step, "builds": done, "last_n": last_done_n, "complete": n > hi}));
     0
 }
 
 fn families(ctx: &Ctx) {
     let exe = std::env::current_exe().expect("current_exe");
     // (family, N, step): every n = 1, 1+step, ... <= N
-    let plan: Vec<(&str, usize, usize)> = vec![("chain", 300, 1), ("unary", 2000, 1), ("long", 1500, 1), ("many", 1200, 1), ("period", 600, 1)];
+    let plan: Vec<(&str, usize, usize)> = vec![("chain", 200, 1), ("unary", 600, 1), ("long", 400, 1), ("many", 600, 1), ("period", 300, 1)];
     let mut jobs = vec![];
     for (name, nmax, step) in &plan {
         let parts = 8;
@@ -160,6 +167,9 @@ fn families(ctx: &Ctx) {
                     let Ok(v) = serde_json::from_str::<serde_json::Value>(line) else { continue };
                     if v["summary"] == json!(true) {
                         summarised = true;
+                        if v["complete"] != json!(true) {
+                            ctx.run.cap_hit(format!("family {name} (n = {lo}, {lo}+{step}, ...): wall budget reached, swept completely only up to n = {}", v["last_n"]));
+                        }
                         let b = v["builds"].as_u64().unwrap_or(0);
                         ctx.run.evals.fetch_add(b, std::sync::atomic::Ordering::Relaxed);
                         for k in 0..b {
@@ -181,7 +191,7 @@ fn families(ctx: &Ctx) {
             Err(e) => ctx.run.machinery_error(format!("cannot spawn family child: {e}")),
         }
     }
-    ctx.run.space(json!({"universe": "families chain(n), unary(n), long(n), many(n), period(n): every n from 1 to N", "N": plan.iter().map(|(a, b, _)| json!({"family": a, "N": b})).collect::<Vec<_>>(), "settings": "{}, na+ne, r, r+na+ne", "isolation": "child processes, ulimit -v 8 GB, 900 s wall"}));
+    ctx.run.space(json!({"universe": "families chain(n), unary(n), long(n), many(n), period(n): every n from 1 to N", "N": plan.iter().map(|(a, b, _)| json!({"family": a, "N": b})).collect::<Vec<_>>(), "settings": "{}, na+ne, r, r+na+ne", "isolation": "child processes, ulimit -v 8 GB, 240 s internal budget per child (a child that runs out reports the n it reached), 900 s hard cap"}));
 }
 
 pub fn run(ctx: &Ctx) {
